@@ -17,6 +17,7 @@
 (*  SRC_FAIL complete    (the underlying source returned an error; complete *)
 (*          = every byte of the stream had been handed over by then: such  *)
 (*          a failure is immaterial and not required to be reported)       *)
+(*  Hang    op  (the call did not return within the watchdog delay)        *)
 (*  R_SPAWN first, n     R_JOIN                                            *)
 (*  D_SEEN  id, tok (value observed by the spin loop: id-1 or -1)          *)
 (*  D_REL   id      (end of the shared section)                            *)
@@ -130,6 +131,7 @@ Next ==
                 [] e.ev = "D_DEC"    -> Dec(e)
                 [] e.ev = "D_FIN0"   -> Fin0(e)
                 [] e.ev = "D_FIN1"   -> Fin1(e)
+                [] e.ev = "Hang"     -> Check(s, FALSE, "C07_call_never_returns")
                 [] OTHER             -> s
     \* report the first violated predicate of each run (the orchestrator reads these lines)
     /\ (s'.bad # "none" /\ s'.bad # s.bad) => PrintT(<<"VIOLATION_AT", l, s'.bad>>)
